@@ -5,7 +5,7 @@ from typing import Any, Callable
 
 from spec_classes.types import MISSING
 from spec_classes.utils.method_builder import MethodBuilder
-from spec_classes.utils.mutation import _rollback_on_error, mutate_value
+from spec_classes.utils.mutation import _rollback_on_error, _unfrozen, mutate_value
 from spec_classes.utils.type_checking import type_label
 
 from .base import MethodDescriptor
@@ -166,7 +166,7 @@ class ResetMethod(MethodDescriptor):
         if not _inplace:
             self = copy.deepcopy(self)
 
-        with _rollback_on_error(self):
+        with _rollback_on_error(self), _unfrozen(self, enabled=not _inplace):
             for attr in self.__spec_class__.attrs:
                 try:
                     delattr(self, attr)
